@@ -8,6 +8,7 @@ import (
 	"os"
 	"sort"
 	"strings"
+	"syscall"
 	"time"
 )
 
@@ -123,17 +124,25 @@ func execRun(e *Engine, cmd *Command, gen, sch *Tape, idx uint64) (*RunCtx, *Run
 
 // WorkerMain is the command loop of a worker process.
 func WorkerMain() {
-	in := bufio.NewReaderSize(os.Stdin, 1<<20)
-	out := bufio.NewWriterSize(os.Stdout, 1<<16)
-	defer out.Flush()
-	// the protocol keeps the real stdin/stdout; Lua code (io.read, io.write, print
-	// through io.stdout) must not reach them
+	// The protocol keeps private duplicates of the real stdin/stdout; file
+	// descriptors 0 and 1 themselves are pointed at /dev/null so that nothing the
+	// Lua code does (io.read, io.write, io.stdout, print) can reach the protocol.
+	pin, pout := os.Stdin, os.Stdout
+	if fd, err := syscall.Dup(0); err == nil {
+		pin = os.NewFile(uintptr(fd), "protocol-in")
+	}
+	if fd, err := syscall.Dup(1); err == nil {
+		pout = os.NewFile(uintptr(fd), "protocol-out")
+	}
 	if f, err := os.Open(os.DevNull); err == nil {
-		os.Stdin = f
+		syscall.Dup2(int(f.Fd()), 0)
 	}
 	if f, err := os.OpenFile(os.DevNull, os.O_WRONLY, 0); err == nil {
-		os.Stdout = f
+		syscall.Dup2(int(f.Fd()), 1)
 	}
+	in := bufio.NewReaderSize(pin, 1<<20)
+	out := bufio.NewWriterSize(pout, 1<<16)
+	defer out.Flush()
 	emit := func(tag string, v interface{}) {
 		b, _ := json.Marshal(v)
 		out.WriteString(tag)
